@@ -216,7 +216,28 @@ def compare(h, name, code):
         num_exc = e
     sy = sympy_side(code)
     if num_exc is not None:
-        h.true('numeric path raises: symbolic path must raise too', not sy['ok'])
+        # Term scalars are routed like symbols wherever the library branches on issymbol()/dtype 'O', so an exception here
+        # may belong to the symbolic branch.  Whether the *numeric* path accepts this call form does not depend on the
+        # values: evaluate the same expression on plain floats.
+        fl = dict(ns)
+        fl.update({n: 0.3 + 0.1 * k for k, n in enumerate(env)})
+        from symreal.core import Ctx
+        saved, Ctx.cur = Ctx.cur, None
+        try:
+            eval(code, fl)
+            numeric_accepts = True
+        except Exception:      # noqa: BLE001
+            numeric_accepts = False
+        finally:
+            Ctx.cur = saved
+        if numeric_accepts and sy['ok']:
+            from symreal.core import NotEncodable
+            raise NotEncodable(f'Term run raised {type(num_exc).__name__} although floats and SymPy symbols are accepted: {num_exc}'[:200])
+        if numeric_accepts:
+            h.true(f"numeric path accepts this call form, the symbolic path must too (Term run raised {type(num_exc).__name__}: "
+                   f"{str(num_exc)[:60]}; SymPy run: {sy.get('exc')} {sy.get('msg', '')[:60]})", False)
+        else:
+            h.true('numeric path raises: symbolic path must raise too', not sy['ok'])
         return
     h.true(f"symbolic path accepts the call form (raised {sy.get('exc')}: {sy.get('msg', '')[:80]})", sy['ok'])
     if not sy['ok']:
